@@ -199,11 +199,7 @@ def dParseTokens : Nat → List Tok → List DItem → Option DItem → Nat → 
                 (match Dec.le? l u with
                  | none => .error .invalidOperation
                  | some true => .ok (some ⟨some l, some u⟩)
-                 | some false =>
-                   -- equal values are fine, `lower > upper` is refused
-                   (match Dec.le? u l with
-                    | some true => .ok (some ⟨some l, some u⟩)
-                    | _ => .error .iface))
+                 | some false => .error .iface)     -- `lower > upper`
               | none => .ok (some ⟨some l, none⟩)
             else .ok (some ⟨some l, some l⟩)
         match decided with
